@@ -31,23 +31,24 @@ OdInit == [m \in FlowNames |-> ObsAbsent]
 
 (* the code renders an empty right-hand side as '0.0': empty and zero are one observable class *)
 CoarseK(k) == IF k = "empty" THEN "zero" ELSE k
-ValOfSpecDef(c) == IF c.k = "defined" THEN << DenDef(c.d, Vals[1]), DenDef(c.d, Vals[2]) >> ELSE << 0, 0 >>
+ValOfSpecDef(c) == IF c.k = "absent" THEN << 0, 0 >> ELSE << DenOfDef(c, Vals[1]), DenOfDef(c, Vals[2]) >>
+ObsProtected(o) == o.k = "defined" /\ o.d \notin ZeroSpelled       \* Protected, on an observed definition
 
 (* C06_DefineOnce on what was observed before (b) and after (a) the call *)
 SameDefinition(x, y) == y.k = "defined" /\ y.v = x.v /\ y.e = x.e /\ (x.e \/ y.d = x.d)
 DefineOnceObs(b, a, act) ==
     act.op = "CF" =>
-        /\ \A m \in FlowNames : Protected(b[m]) => SameDefinition(b[m], a[m])
+        /\ \A m \in FlowNames : ObsProtected(b[m]) => SameDefinition(b[m], a[m])
         /\ (DefinesSomething(act) /\ b[act.body].k # "defined") =>
                /\ a[act.body].k = "defined" /\ a[act.body].e
                /\ a[act.body].v = << DenDef(act.eqn, Vals[1]), DenDef(act.eqn, Vals[2]) >>
 
 (* conformance: the observed definitions are the ones the spec action computes *)
 DefsAsSpec(obs, sp) ==
-    \A m \in FlowNames : /\ CoarseK(obs[m].k) = CoarseK(sp[m].k)
+    \A m \in FlowNames : /\ CoarseK(obs[m].k) = CoarseK(Eff(sp[m]))
                          /\ obs[m].e /\ obs[m].v = ValOfSpecDef(sp[m])
 DefTextAsSpec(obs, sp) ==
-    \A m \in FlowNames : sp[m].k = "defined" => obs[m].d = sp[m].d
+    \A m \in FlowNames : (sp[m].k = "defined" /\ NoTerms(sp[m])) => obs[m].d = sp[m].d
 
 V(kind, clause) == [kind |-> kind, clause |-> clause, at |-> Len(log')]
 
